@@ -638,8 +638,12 @@ func runCaseA(c *core.Ctx, cs *caseA, allFacets []FacetSpec, layout int, forms [
 
 func report(c *core.Ctx, f *Failure) {
 	sig := fmt.Sprintf("facet-%s-%s", f.Facet.Kind, f.Clause)
-	what := fmt.Sprintf("%s facet %q (size %d, filter %+v) on %s, variant %+v: real %s differs from the specification's %s in %s",
-		f.Facet.Kind, f.Facet.Name, f.Facet.Size, f.Facet.Filter, layoutName(f.Layout), f.Variant, core.Canon(f.Got), core.Canon(f.Expect), f.Clause)
+	against := "differs from the specification's " + core.Canon(f.Expect) + " in " + f.Clause
+	if f.Engine == "B" {
+		against = "is rejected by the TLC judge (JudgeFacets invariant " + f.Clause + ") for query " + f.Query
+	}
+	what := fmt.Sprintf("%s facet %q (size %d, filter %+v, ranges %s) on %s, variant %+v: real %s %s",
+		f.Facet.Kind, f.Facet.Name, f.Facet.Size, f.Facet.Filter, core.Canon(f.Facet.Ranges), layoutName(f.Layout), f.Variant, core.Canon(f.Got), against)
 	c.Violation(sig, what, f)
 }
 
